@@ -572,6 +572,9 @@ class SR:
         sc = 10 ** decimals
         return (self * sc).rint() / sc
 
+    def __round__(self, ndigits=None):
+        return self.round(0 if ndigits is None else ndigits)
+
     def rint(self):
         e = Engine.cur
         f = uf_rint()
@@ -589,6 +592,13 @@ class SR:
         if max is not None:
             z_ = z3.If(z_ <= rv(max), z_, rv(max))
         return SR(z_)
+
+
+def sym_float(x=0.0):
+    """replacement for builtins.float inside target modules (Python forbids __float__ returning a non-float)"""
+    if isinstance(x, SR):
+        return x
+    return float(x)
 
 
 def sym_int(x, *a):
